@@ -63,17 +63,30 @@ def check(run, model, tier):
     layout = const_str(fmt_calls[0].func.value)
     args = fmt_calls[0].args
     st_calls = [c for c in shallow_calls(writer.node) if isinstance(c.func, ast.Attribute) and c.func.attr == 'strftime']
-    if len(st_calls) != 1:
+    tfmts = []
+    if len(st_calls) == 1:
+        sc = st_calls[0]
+        for a in sc.args:
+            if const_str(a) is not None:
+                tfmts = [const_str(a)]
+        if not tfmts:
+            raise AnalysisError('trace writer: strftime format is not a literal')
+        if not args or args[0] is not sc:
+            raise AnalysisError('trace writer: the timestamp is not the first field of the layout')
+    elif not st_calls and args:
+        # the datetime object formatted directly: str(datetime) == isoformat(' '), which drops the fraction when microsecond == 0
+        a0 = args[0]
+        inner0 = a0.args[0] if isinstance(a0, ast.Call) and norm(a0.func) == 'str' and a0.args else a0
+        if isinstance(inner0, ast.Attribute) and inner0.attr == 'datetime':
+            tfmts = ['%Y-%m-%d %H:%M:%S.%f', '%Y-%m-%d %H:%M:%S']
+        elif isinstance(inner0, ast.Call) and isinstance(inner0.func, ast.Attribute) and inner0.func.attr == 'isoformat' and isinstance(inner0.func.value, ast.Attribute) \
+                and inner0.func.value.attr == 'datetime':
+            sep = const_str(inner0.args[0]) if inner0.args else 'T'
+            tfmts = ['%Y-%m-%d' + (sep or 'T') + '%H:%M:%S.%f', '%Y-%m-%d' + (sep or 'T') + '%H:%M:%S']
+        else:
+            raise AnalysisError('trace writer: the timestamp field %s is not a recognised way of rendering the record\'s datetime' % norm(a0))
+    else:
         raise AnalysisError('trace writer: expected one strftime call, found %d' % len(st_calls))
-    sc = st_calls[0]
-    tfmt = None
-    for a in sc.args:
-        if const_str(a) is not None:
-            tfmt = const_str(a)
-    if tfmt is None:
-        raise AnalysisError('trace writer: strftime format is not a literal')
-    if not args or args[0] is not sc:
-        raise AnalysisError('trace writer: the timestamp is not the first field of the layout')
     # ---- reader regex
     helper = stripped.nested.get('item_without_timestamp')
     if helper is None:
@@ -98,7 +111,7 @@ def check(run, model, tier):
             return line
         return m.group(1)
     n = 0
-    for digit in string.digits:
+    for tfmt, digit in [(tf, dg) for tf in tfmts for dg in string.digits]:
         ts = render(tfmt, digit)
         for name in ('75c8c', '12345', 'None', 'a b'):
             rest_fields = [name, 'SIG_1', 'state_a', 'state_b2']
@@ -111,17 +124,18 @@ def check(run, model, tier):
             got = strip_prefix(line)
             ok = got == expect
             n += 1
-            run.inst('TABLE.timestamp-prefix', helper, 'digit %s name %r' % (digit, name), ok,
+            run.inst('TABLE.timestamp-prefix', helper, 'form %r digit %s name %r' % (tfmt, digit, name), ok,
                      '' if ok else 'writer line %r is stripped to %r, expected %r: the reader regex %r does not remove exactly the timestamp the '
-                     'writer format %r produces' % (line, got, expect, pattern, tfmt), node=rcall, obligation=True)
+                     'writer produces in its form %r' % (line, got, expect, pattern, tfmt), node=rcall, obligation=True)
             # leading spaces (the live trace indents) are part of the prefix
             got2 = strip_prefix('   ' + line)
-            run.inst('TABLE.timestamp-prefix', helper, 'indented, digit %s name %r' % (digit, name), got2 == expect,
+            run.inst('TABLE.timestamp-prefix', helper, 'indented, form %r digit %s name %r' % (tfmt, digit, name), got2 == expect,
                      '' if got2 == expect else 'an indented writer line is stripped to %r, expected %r' % (got2, expect), node=rcall, obligation=True)
     run.floor('writer/reader samples decided', n, 40)
     # two lines that differ only in the timestamp must compare equal; lines that differ elsewhere must not
+    tfmt = tfmts[0]
     a = layout.format(render(tfmt, '1'), 'n', 'S', 'x', 'y').rstrip('\n')
-    b = layout.format(render(tfmt, '7'), 'n', 'S', 'x', 'y').rstrip('\n')
+    b = layout.format(render(tfmts[-1], '7'), 'n', 'S', 'x', 'y').rstrip('\n')
     c = layout.format(render(tfmt, '1'), 'n', 'S', 'x', 'z').rstrip('\n')
     run.inst('TABLE.timestamp-prefix', helper, 'timestamp-only difference vanishes', strip_prefix(a) == strip_prefix(b),
              'two lines differing only in the timestamp still differ after stripping', node=rcall, obligation=True)
